@@ -26,7 +26,7 @@ func init() {
 		Name:  "BORROWED-WRITE",
 		IR:    "ast",
 		Props: []string{"C14", "C38"},
-		Floor: 5,
+		Floor: 2,
 		Doc:   "a slice obtained from an accessor that returns its owner's storage (AllTags and its like) is only read: no element store, in-place sort, copy into it or append onto a re-slice of it, directly or through a local alias",
 		Run:   runBorrowedWrite,
 	})
